@@ -1,4 +1,4 @@
-\* quick profile A (the driver writes one cfg per profile, see harness/c04_omega.py)
+\* quick profile A, slice 0 (the driver writes one cfg per profile, see harness/c04_omega.py)
 CONSTANTS
   MaxRecs = 2
   MaxEtas = 4
@@ -18,7 +18,8 @@ CONSTANTS
   TailSizes = {2}
   MaxTailItems = 1
   NEditVals = 1
-  NSlices = 1
+  NSlices = 6
+  FixPos = {"hdr", "first", "firstpar", "prefix", "last"}
   Slice = 0
 INIT Init
 NEXT Next
